@@ -40,10 +40,6 @@ def asFS? (j : Json) : Option FS := do
   let ex ← (j.getObjVal? "extra").toOption.bind asNat?
   pure ⟨root, cwd, mx, ex⟩
 
-def strOf (p : PPath) : PName :=
-  let body := (p.parts.intersperse [SLASH]).flatten
-  if p.root = 0 ∧ p.parts = [] then dot else List.replicate p.root SLASH ++ body
-
 def jpath (p : PPath) : Json :=
   Json.mkObj [("root", jnat p.root), ("parts", jarr (p.parts.map jname)), ("name", jname p.name),
     ("suffix", jname (suffixOf p.name)), ("abs", Json.bool p.isAbsolute), ("str", jname (strOf p))]
@@ -163,8 +159,37 @@ def handlePkg (args : List Json) : Json :=
     | _, _ => jerr "bad-fs"
   | _ => jerr "bad-args"
 
+def asFslCfg? (cfgj : Json) : Option FSLConfig := do
+  let sp ← (cfgj.getObjVal? "search").toOption.bind fun j => (asArr? j).bind (mapM? asName?)
+  let ext ← (cfgj.getObjVal? "ext").toOption.bind asOptName?
+  let rej ← (cfgj.getObjVal? "rej").toOption.bind asBool?
+  pure ⟨sp.map parse, ext, rej⟩
+
+/-- one request of a history: `[fs, [[canonical path, mtime]…], name]` -/
+def asStep? (j : Json) : Option (FS × (Comps → Nat) × List Nat) := do
+  match (← asArr? j) with
+  | [fsj, mts, n] =>
+    let fs ← asFS? fsj
+    let tbl ← (asArr? mts).bind (mapM? fun e => do
+      match (← asArr? e) with
+      | [q, t] => pure ((← asComps? q), (← asNat? t))
+      | _ => none)
+    let name ← asName? n
+    pure (fs, (fun q => ((tbl.find? (fun e => e.1 = q)).map (·.2)).getD 0), name)
+  | _ => none
+
+/-- `["c22_cache", cfg, auto_reload, capacity, [step…]]` → one answer per request -/
+def handleCache (args : List Json) : Json :=
+  match args with
+  | [cfgj, auto, cap, steps] =>
+    match asFslCfg? cfgj, asBool? auto, asNat? cap, (asArr? steps).bind (mapM? asStep?) with
+    | some cfg, some auto, some cap, some steps =>
+      jarr ((cachedRun ⟨cfg, auto, cap⟩ [] steps).map jsource)
+    | _, _, _, _ => jerr "bad-cache-args"
+  | _ => jerr "bad-args"
+
 def commands : List (String × (List Lean.Json → Lean.Json)) :=
   [("c22_path", handlePath), ("c22_suffix", handleSuffix), ("c22_join", handleJoin), ("c22_fsop", handleFsop),
-   ("c22_fsl", handleFsl), ("c22_pkg", handlePkg)]
+   ("c22_fsl", handleFsl), ("c22_pkg", handlePkg), ("c22_cache", handleCache)]
 
 end Driver.C22
